@@ -39,11 +39,12 @@ def _activate_calls(ctx: Ctx, p: Path) -> List[Ev]:
 
 
 def _is_initial_path(p: Path) -> bool:
+    from ..kernel import initial_test
+
     for b in p.of("branch"):
-        t = b.term
-        if isinstance(t, ast.Compare) and any(isinstance(c, ast.Constant) and c.value == "__initial__"
-                                              for c in [t.left] + t.comparators):
-            return bool(b.x["taken"])
+        it = initial_test(b.term)
+        if it is not None:
+            return bool(b.x["taken"]) is it
     return False
 
 
@@ -650,6 +651,10 @@ def rule_copied_guards(ctx: Ctx):
     from . import c15
 
     c15.rule_copy(ctx, rule="C01.expected")
+    # ... and every non-final state gets its copy, whatever transitions it already has
+    from . import c09
+
+    c09.rule_any(ctx, rule="C01.expected")
 
 
 RULES = [rule_loop, rule_none, rule_match, rule_allof, rule_expected, rule_reject, rule_write, rule_copied_guards]
